@@ -817,7 +817,26 @@ class LibMixin:
         self.throw("StopIteration", "", node)
 
     def lib_map(self, a, kw, run, node):
-        return tuple(self.call(a[0], [x], {}, run, node) for x in self.iterate_concrete(a[1], run, node))
+        if len(a) != 2:
+            self.limit("map() over several iterables", node)
+        seq = a[1]
+        if isinstance(seq, GenV):
+            seq = self.gen_rest(seq)
+        items = self.iterate(seq, run, node)
+        if items is not None:
+            return GenV(tuple(self.call(a[0], [x], {}, run, node) for x in items))  # lazy and stateful, like a generator
+        # over a symbolic sequence: the generator expression (f(x) for x in seq), with the same state a named generator has
+        e = ast.parse("(__kv_f(__kv_x) for __kv_x in __kv_seq)", mode="eval").body
+        for n_ in ast.walk(e):
+            if hasattr(n_, "lineno"):
+                n_.lineno = getattr(node, "lineno", 0)
+                n_.end_lineno = getattr(node, "end_lineno", getattr(node, "lineno", 0))
+                n_.col_offset = getattr(node, "col_offset", 0)
+                n_.end_col_offset = getattr(node, "end_col_offset", 0)
+        env = Env(None, "function", None)
+        env.vars["__kv_f"], env.vars["__kv_seq"] = a[0], seq
+        v = self.ev_comp(e, env, run)
+        return GenV(v) if isinstance(v, (tuple, Sym)) else v
 
     def lib_dir(self, a, kw, run, node):
         if a and isinstance(a[0], LibModule) and a[0].name == "builtins":
